@@ -108,10 +108,19 @@ def run(ctx):
     # the other families: one seeded driver run per configuration, monitors side by side
     next_ = ctx.pick(120, 1200)
     jobs, fam_traces = [], {}
+    # C13: the short-product shapes of its generator (their branch differs between builds with and without assertions)
+    gcfg = fw.write_cfg(ctx.path("Gen_C13.cfg"), invariants=["Emit"], constants={"Seed": ctx.seed % 1000, "Big": "FALSE"})
+    c13all, _ = ctx.gen("gen-C13", "C13", "Gen_C13.tla", gcfg, workers=4)
+    c13 = ctx.path("cases-C13-short.ndjson")
+    with open(c13, "w") as f:
+        for line in open(c13all):
+            if json.loads(line).get("shape", 0) >= 11:
+                f.write(line)
+    extra_cases = {"C13": ["--cases", c13]}
     for fam, (b, mon, libs, dargs) in EXT.items():
         fam_traces[fam] = []
         for c in CFGS:
-            tr = ctx.drive(fw.build(c, b), ["--seed", s, "--n", str(next_)] + dargs, "trace-%s-%s.ndjson" % (fam, c))
+            tr = ctx.drive(fw.build(c, b), extra_cases.get(fam, []) + ["--seed", s, "--n", str(next_)] + dargs, "trace-%s-%s.ndjson" % (fam, c))
             fam_traces[fam].append(tr)
             jobs.append(("def-%s-%s" % (fam, c), fam, mon + ".tla", mon + ".cfg", tr, libs))
     results = par_tlc(ctx, jobs, threads=ctx.pick(5, 8))
